@@ -286,12 +286,17 @@ def verify_function(ex, key, timeout_ms=10000, extra_pre=()):
             return rep
         ret_ty = spec.ret_ty(ex) if getattr(spec, "report_type", None) is None else None
         ex.cur_key = key
+        saved_opaque = ex.opaque
+        ex.opaque = set(ex.opaque) - set(getattr(spec, "transparent", ()))
         ex.obligations = []
         ex.fresh_uuids = []
         ex.iface_used = set()
         n0 = ex.solver_calls
         fv = FuncV(fn, modpath, cls=cls, key=key) if closure_fv is None else closure_fv
-        outs = list(ex.run_function(fv, args, st))
+        try:
+            outs = list(ex.run_function(fv, args, st))
+        finally:
+            ex.opaque = saved_opaque
         ex.cur_key = None
         axioms = ex.base_axioms()
         _cm.UNFOLD = unfold
